@@ -51,6 +51,9 @@ type Scenario struct {
 	AttackerProof *MTPJ          // inclusion proof of the attacker's auth claim in the attacker's tree
 	AttackerSMT   *MTPJ          // inclusion proof of the credential's claim in the attacker's tree
 	OtherIssuer   *StatusAnswerJ // a consistent non-revocation answer built from the attacker's trees
+	UnrelatedProof *MTPJ  // inclusion proof of Unrelated (which IS in the issuer's tree)
+	UnrelatedSig   string // the issuer's signature over Unrelated
+	AttackerAbsent *MTPJ  // genuine non-existence proof of the attacker's auth claim in the issuer's tree
 	NonMember     *MTPJ          // genuine non-existence proof of ClaimAlt's index in the issuer's tree
 }
 
@@ -97,7 +100,7 @@ func Build(rng *rand.Rand, p Params) (*Scenario, error) {
 	if err != nil {
 		return nil, err
 	}
-	att, err := NewUnsealed(rng, uint64(rng.Int63()))
+	att, err := NewUnsealed(rng, uint64(rng.Int63n(1<<53)))
 	if err != nil {
 		return nil, err
 	}
@@ -138,7 +141,14 @@ func Build(rng *rand.Rand, p Params) (*Scenario, error) {
 	if sc.ClaimAlt, err = CoreClaimOf(sc.Cred, opts); err != nil {
 		return nil, err
 	}
-	other := NewCredential(rng, issuerField, subject.DID.String(), credNonce+1)
+	subject2, err := NewUnsealed(rng, 0)
+	if err != nil {
+		return nil, err
+	}
+	if err := subject2.Seal(rng); err != nil {
+		return nil, err
+	}
+	other := NewCredential(rng, issuerField, subject2.DID.String(), credNonce+1) // another subject: another index
 	opts.Version = 0
 	opts.RevNonce = credNonce + 1
 	if sc.Unrelated, err = CoreClaimOf(other, opts); err != nil {
@@ -146,6 +156,9 @@ func Build(rng *rand.Rand, p Params) (*Scenario, error) {
 	}
 	// populate the trees
 	if err := is.AddClaim(sc.Claim); err != nil {
+		return nil, err
+	}
+	if err := is.AddClaim(sc.Unrelated); err != nil {
 		return nil, err
 	}
 	for i := 0; i < p.NClaims; i++ {
@@ -227,6 +240,16 @@ func Build(rng *rand.Rand, p Params) (*Scenario, error) {
 		return nil, err
 	}
 	if sc.AttackerSMT, err = att.ClaimsProof(hi); err != nil {
+		return nil, err
+	}
+	uhi, _, _ := sc.Unrelated.HiHv()
+	if sc.UnrelatedProof, err = is.ClaimsProof(uhi); err != nil {
+		return nil, err
+	}
+	if sc.UnrelatedSig, err = is.Sign(sc.Unrelated); err != nil {
+		return nil, err
+	}
+	if sc.AttackerAbsent, err = is.ClaimsProof(aahi); err != nil {
 		return nil, err
 	}
 	althi, _, _ := sc.ClaimAlt.HiHv()
